@@ -43,6 +43,9 @@ key_signature_pattern = re.compile(
     )
 )
 
+# 1.0.0 key names: tonic, accidentals, optional minor suffix, optional second key
+v1_key_signature_pattern = re.compile(r"^[A-Ga-g][#b]*m?(/[A-Ga-g][#b]*m?)?$")
+
 pitch_class_pattern = re.compile("(?P<step>[A-Ga-g])(?P<alter>[#bn]*)")
 
 number_pattern = re.compile(r"\d+")
@@ -713,15 +716,20 @@ class MatchKeySignature(MatchParameter):
     def _parse_key_signature(cls, kstr: str) -> MatchKeySignature:
         # import pdb
         # pdb.set_trace()
-        ksinfo = key_signature_pattern.search(kstr)
+        kstr = kstr.strip()
+        if v1_key_signature_pattern.match(kstr) is not None:
+            ksinfo = None
+        else:
+            ksinfo = key_signature_pattern.search(kstr)
 
         if ksinfo is None:
             fmt = "v1.0.0"
-            ksinfo = kstr.split("/")
-            fifths1, mode1 = key_name_to_fifths_mode(ksinfo[0].upper())
+            # only the tonic is case-insensitive: "b" and "m" carry meaning
+            ksinfo = [k[:1].upper() + k[1:] for k in kstr.split("/")]
+            fifths1, mode1 = key_name_to_fifths_mode(ksinfo[0])
             fifths2, mode2 = None, None
             if len(ksinfo) == 2:
-                fifths2, mode2 = key_name_to_fifths_mode(ksinfo[1].upper())
+                fifths2, mode2 = key_name_to_fifths_mode(ksinfo[1])
         else:
             fmt = "v0.3.0"
             step1, alter1, mode1, step2, alter2, mode2 = ksinfo.groups()
